@@ -692,6 +692,12 @@ func c01TwoRuns(c *Ctx, in *GenInput, dir string) Case {
 		time.Sleep(20 * time.Millisecond)
 		os.WriteFile(filepath.Join(dir, "base", "base.go"), []byte(base2), 0o644)
 		compiles = step(2)
+		if compiles {
+			// and back: the interface loses the methods again, the third rendering is shorter than the file it replaces
+			time.Sleep(20 * time.Millisecond)
+			os.WriteFile(filepath.Join(dir, "base", "base.go"), []byte(base1), 0o644)
+			compiles = step(3)
+		}
 	} else {
 		compiles = false
 	}
